@@ -50,8 +50,10 @@ REQUIRED_CLASSES = (['Nasa', 'Nasa9', 'Shomate', 'style:arbitrary', 'style:reali
                      'ival:whole_segment', 'ival:short', 'ival:to_break', 'ival:from_break']
                     + ['units:%s' % u for u in UNITS_DOC]
                     + ['alen:%d' % n for n in range(1, 51)])
-REQUIRED_BRANCHES = ['get_a:low', 'get_a:high', 'get_a:T==T_mid', '_get_nasa:T==T_low', '_get_nasa:T==T_high',
-                     '_get_nasa:interior']
+# branches (get_a:low/high/T==T_mid, _get_nasa:T==T_low/T==T_high/interior) are recorded by the probes as
+# evidence; they are not *required* because the probed functions are private (a refactoring that removes
+# them must not make the run inconclusive) -- the equivalent input classes above are required instead
+REQUIRED_BRANCHES = []
 REQUIRED_PROBES = ['Nasa.get_a', 'Nasa9._get_nasa', 'Shomate._check_T',
                    'get_nasa_CpoR', 'get_nasa_HoRT', 'get_nasa_SoR',
                    'get_nasa9_CpoR', 'get_nasa9_HoRT', 'get_nasa9_SoR',
@@ -319,7 +321,7 @@ def directed(tier):
             arrays = [_make_array(rng, sp, n, kind=kinds[n % 2], elem='int' if n % 7 == 3 else 'float')
                       for n in range(1, 51)]
             D.append(_case(rng, dict(sp), 'arbitrary', arrays=arrays, n_ivals=3))
-    # NASA-9: 1, 3, 4 segments, gaps of every kind
+    # NASA-9: 1-4 segments, contiguous and with a gap
     for nseg in (1, 2, 3, 4):
         for gap in (False, True):
             if nseg == 1 and gap:
@@ -331,7 +333,7 @@ def directed(tier):
     D.append(_case(rng, z7, 'unit'))
     same = dict(n7, a_high=list(n7['a_low']))
     D.append(_case(rng, same, 'arbitrary'))
-    # every Shomate unit, all three styles for NASA-7
+    # every Shomate unit; every coefficient style for every class
     for u in S.SHOMATE_UNITS:
         D.append(_case(rng, _species(rng, 'Shomate', 'arbitrary', units=u), 'arbitrary'))
     for style in ('arbitrary', 'realistic', 'unit'):
